@@ -213,8 +213,9 @@ def pitchItemsOf (toks : List String) : Option (List PitchItem) :=
       | [b, d, r] =>
         match decOf b, decOf d, natTok r with
         | some b, some d, some r =>
-          -- only when the 6-decimal rendering is exact
-          if r = 0 ∨ b.dec + d.dec + 1 > 6 then none else
+          -- only when the 6-decimal rendering is exact; rates above 1000 are outside the quantifier, like node
+          -- lengths (a rate that does not fit an `int` is read modulo 2^32)
+          if r = 0 ∨ r > 1000 ∨ b.dec + d.dec + 1 > 6 then none else
           let top := Dec.add (Dec.half d) b
           some (acc ++ [.loop, .node b top (some r), .node top top.neg (some (2 * r)), .node top.neg b (some r)])
         | _, _, _ => none
